@@ -8,6 +8,9 @@ use std::sync::atomic::{AtomicBool, AtomicU64};
 use std::sync::Mutex;
 use std::time::Instant;
 
+/// (property, replay dir) of the run in progress, for the out-of-band reporters (watchdog)
+pub static RUN_INFO: Mutex<Option<(String, PathBuf)>> = Mutex::new(None);
+
 pub struct CheckDef {
     pub id: &'static str,
     pub rule: &'static str,
@@ -218,6 +221,9 @@ fn run(id: &str, tier: Tier, only: Option<&str>) -> i32 {
         return 2;
     };
     let ctx = make_ctx(id, tier);
+    let _ = std::fs::create_dir_all(&ctx.replay_dir);
+    crate::meter::set_emergency(id, &ctx.replay_dir.join(format!("{}-heap-cap.json", id)).to_string_lossy());
+    *RUN_INFO.lock().unwrap() = Some((id.to_string(), ctx.replay_dir.clone()));
     let t0 = Instant::now();
     let mut reports = Vec::new();
     let mut violations: Vec<ViolationRec> = Vec::new();
@@ -333,6 +339,9 @@ fn run(id: &str, tier: Tier, only: Option<&str>) -> i32 {
         return 2;
     }
     if !violations.is_empty() {
+        // one report per signature
+        let mut seen = HashSet::new();
+        violations.retain(|v| seen.insert(v.sig.clone()));
         for v in &violations {
             println!("FAIL section={} sig={} :: {}", v.section, v.sig, v.msg.chars().take(600).collect::<String>());
             println!("VIOLATION property={} replay={}", id, v.replay.display());
